@@ -17,6 +17,7 @@ PEER_MENU = ['own', 'own-exception', 'nothing', 'garbage', 'other-unit', 'stale+
 READ_MENU = ['full', 'short0', 'short1', 'short-1', 'oserror', 'eof']
 SEND_MENU = ['ok', 'oserror']
 UNIT = 0x11
+FRAMING_HAS_TID = lambda kind: kind in ('tcp', 'udp')   # noqa: E731
 LAY = stores.Layout(('seq', 0, 64), True, False)
 
 
@@ -215,7 +216,7 @@ class Sim(object):
                                    dict(tid=tid, unit=p['unit'], fc=mm['fc'], what='late', pdu=body), delay=spec.timeout + 0.5)
                             s.last_reply = (tid, p['unit'], body)
                         self.line.peer = late_peer
-                    r = c.execute(req)
+                    r = call(c, m, req)
                     rec['result'] = r
                     rec['raised'] = None
                 except BaseException as e:   # noqa
@@ -224,7 +225,7 @@ class Sim(object):
                 finally:
                     if self.mode == 'forced-late':
                         self.line.peer = orig_peer
-                rec['tid'] = getattr(req, 'transaction_id', None)
+                rec['tid'] = c.transaction.tid if FRAMING_HAS_TID(spec.kind) else getattr(req, 'transaction_id', None)
                 rec['elapsed'] = self.clock.t - t0
                 rec['t_start'], rec['t_end'] = t0, self.clock.t
                 rec['ops'] = self.line.ops - ops0
@@ -235,6 +236,23 @@ class Sim(object):
                     self.line.read_fault = None
                     self.clock.t += spec.timeout + 1.0
         return out
+
+
+def call(c, m, req):
+    """issue the request the way applications do: through the client's convenience methods where one exists
+    (they build the request object and call execute), else through execute(request)"""
+    fc = m['fc']
+    if fc == 3:
+        return c.read_holding_registers(m['address'], m['count'], unit=UNIT)
+    if fc == 1:
+        return c.read_coils(m['address'], m['count'], unit=UNIT)
+    if fc == 6:
+        return c.write_register(m['address'], m['value'], unit=UNIT)
+    if fc == 16:
+        return c.write_registers(m['address'], list(m['registers']), unit=UNIT)
+    if fc == 22:
+        return c.mask_write_register(m['address'], m['and_mask'], m['or_mask'], unit=UNIT)
+    return c.execute(req)
 
 
 def describe(r):
